@@ -194,3 +194,17 @@ Proof.
   - exact (gen_rewardCoin_spec amount pct ok).
 Qed.
 Print Assumptions C05_code_tie_release_and_payout_panic_sites.
+
+(* ---------------------------------------------------------------------------------------------
+   What the custom modules do at a block boundary, read from the current source on every run
+   (translator/gen_blocks.go -> Gen/BlockRoutines.v): storage and jklmint call their BeginBlocker and nothing else,
+   rns, filetree, notifications and oracle do nothing - which is what Model/BeginBlock.v covers.  A block routine added
+   to any of them makes this theorem fail (or the table unreadable), and the begin-block theorems above are then no
+   longer about all of the code that runs at a block boundary. *)
+From JK Require Import Gen.BlockRoutines.
+Theorem C05_code_tie_block_routines :
+  block_routines =
+  [("filetree"%string, ([], [])); ("jklmint"%string, (["BeginBlocker"%string], [])); ("notifications"%string, ([], []));
+   ("oracle"%string, ([], [])); ("rns"%string, ([], [])); ("storage"%string, (["BeginBlocker"%string], []))].
+Proof. reflexivity. Qed.
+Print Assumptions C05_code_tie_block_routines.
